@@ -13,7 +13,7 @@ for d in sorted(glob.glob('/verif/seeded/*/meta.json')):
     for k, v in sorted(checks.items()):
         first = (v.get('first') or [''])[0]
         key = first.split(']')[0].split('[')[-1] if '[' in first else ''
-        res.append("%s: %s%s" % (k, 'caught' if v['exit'] == 1 else ('MISSED' if v['exit'] == 0 else 'broken(%d)' % v['exit']), (' (' + key + ')') if key else ''))
+        res.append("%s: %s%s" % (k, 'caught' if v['exit'] == 1 else (('MISSED' if k.startswith(m['property']) else 'silent') if v['exit'] == 0 else 'broken(%d)' % v['exit']), (' (' + key + ')') if key else ''))
     summ = (m.get('summary') or '').strip().replace('\n', ' ')
     if len(summ) > 230:
         summ = summ[:230] + '…'
@@ -35,7 +35,7 @@ if '--update-design' in sys.argv:
     d = open('/verif/DESIGN.md').read()
     d = re.sub(r'(<!-- MATRIX-BEGIN[^>]*-->\n).*?(<!-- MATRIX-END -->)', lambda m: m.group(1) + text + m.group(2), d, flags=re.S)
     n = len(rows)
-    caught = sum(1 for r in rows if 'caught' in r and 'MISSED' not in r)
+    caught = sum(1 for r in rows if re.search(r'\| (C\d\d) \|.*\1/quick: caught', r))
     d = re.sub(r'<!-- COUNT -->.*?<!-- /COUNT -->', '<!-- COUNT -->%d of the %d independent seeded defects listed below are caught by the quick tier.<!-- /COUNT -->' % (caught, n), d, flags=re.S)
     open('/verif/DESIGN.md', 'w').write(d)
     _real_print('DESIGN.md updated: %d/%d' % (caught, n))
